@@ -31,6 +31,9 @@ type c20Case struct {
 	Current string            `json:"current"`
 	HasRoot bool              `json:"has_root"`
 	Edits   int               `json:"edits"` // number of edit+hover rounds after the first
+	// the root is the open document and its include lines are typed in by the first edit (they are neither in
+	// the file on disk nor in the text opened): the tree reaches files it did not hold, some through others
+	LateInc bool `json:"late_inc,omitempty"`
 }
 
 var c20Accts = []string{"assets:cash", "assets:bank", "expenses:food", "income:job", "my:acct", "expenses:food:lunch"}
@@ -119,12 +122,28 @@ func c20Gen(r *rng, st *stats) c20Case {
 	if r.chance(60) {
 		c.Current = "main"
 	}
+	if c.Current == "main" && len(inc["main"]) > 0 && r.chance(35) {
+		c.LateInc = true
+		if c.Edits == 0 {
+			c.Edits = 1
+		}
+		st.count("late-include:" + shape)
+	}
 	if c.HasRoot {
 		st.count("root:yes")
 	} else {
 		st.count("root:no")
 	}
 	return c
+}
+
+// splitIncludes separates the leading include lines of a generated file from the rest.
+func splitIncludes(text string) (incs, rest string) {
+	for strings.HasPrefix(text, "include ") {
+		i := strings.Index(text, "\n")
+		incs, text = incs+text[:i+1], text[i+1:]
+	}
+	return incs, text
 }
 
 func sortStrings(s []string) {
@@ -186,6 +205,18 @@ func c20Run(c c20Case) (string, int, error) {
 	fm := map[string]string{}
 	for n, t := range c.Files {
 		fm[n+".journal"] = t
+	}
+	lateIncs := ""
+	if c.LateInc && c.Current == "main" {
+		var rest string
+		lateIncs, rest = splitIncludes(c.Files["main"])
+		fm["main.journal"] = rest
+		files := map[string]string{}
+		for n, t := range c.Files {
+			files[n] = t
+		}
+		files["main"] = rest
+		c.Files = files
 	}
 	dir, err := tempWorkspace(fm)
 	if err != nil {
@@ -314,6 +345,9 @@ func c20Run(c c20Case) (string, int, error) {
 		return "", 0, err
 	}
 	for e := 0; e < c.Edits; e++ {
+		if e == 0 && lateIncs != "" {
+			text = lateIncs + text
+		}
 		text += fmt.Sprintf("\n2024-12-%02d edit\n    assets:cash  %d USD\n    income:job\n", e+1, e+5)
 		extra = append(extra, c20Int{"assets:cash", "USD", int64(e + 5), 0})
 		_ = srv.DidChange(ctx, &protocol.DidChangeTextDocumentParams{
